@@ -19,8 +19,9 @@ from . import svm                                 # noqa: E402
 GEN_STACK = 256
 
 
-def typecheck(source, lint=False):
-    env = Environment.empty(unreachable_error=lint)
+def typecheck(source, lint=False, word_size=2):
+    """Parse + typecheck exactly as hidc.__main__.main() does (same Environment options)."""
+    env = Environment.empty(unreachable_error=lint, word_size=word_size)
     src = SourceCode.from_string(source)
     ast = parse(src).evaluate(env)
     return env, ast
@@ -28,7 +29,7 @@ def typecheck(source, lint=False):
 
 def compile_lines(source, word_size=2, stack_size=GEN_STACK, unchecked=False, lint=False):
     """Return the list of assembly lines (bytes).  CompilerError propagates."""
-    env, _ = typecheck(source, lint)
+    env, _ = typecheck(source, lint, word_size)
     cg = CodeGen(env, word_size, stack_size, unchecked)
     return list(cg.gen_lines())
 
